@@ -74,7 +74,7 @@ Proof.
   destruct (wf6_expand C HC) as (c11&c12&c13&c14&c15&c16&c21&c22&c23&c24&c25&c26&c31&c32&c33&c34&c35&c36&
     c41&c42&c43&c44&c45&c46&c51&c52&c53&c54&c55&c56&c61&c62&c63&c64&c65&c66&->).
   revert HS. unfold msym, apply_pmat_global. mat_cbv. intro HS.
-  injection HS as -> -> -> -> -> -> -> -> -> -> -> -> -> -> ->.
+  injection HS. intros. subst.
   list_eq ltac:(ring).
 Qed.
 
